@@ -269,7 +269,7 @@ class C09(Prop):
     # ---- oracle self-test: traces the compiled judge must reject ------------------
     def extra_checks(self, ctx, tier, rng):
         head = ["load reg /c09/reg", "mode net", "step conn:c1", "step send:c1:a/b/", "step idle", "run", "--"]
-        tail = ["exit loop", 'hbs ""', "refs 0 0", "slots 1"]
+        tail = ["exit loop", 'hbs ""', "refs 0 0", "slots 1", "slotidx 1"]
         pre = ["start", "cycle 1", "t connect k1", "t logon u1", "cycle 2"]
         bad = {
             "line-never-served": pre + ["t input u1 a", "t cmd u1 a", "cycle 3"] + tail,
@@ -278,7 +278,7 @@ class C09(Prop):
             "lines-out-of-order": pre + ["t input u1 b", "t cmd u1 b", "cycle 3", "t input u1 a", "t cmd u1 a"] + tail,
             "wrong-command-run": pre + ["t input u1 a", "t cmd u1 zzz", "cycle 3", "t input u1 b", "t cmd u1 b"] + tail,
             "refs-unbalanced": pre + ["t input u1 a", "t cmd u1 a", "cycle 3", "t input u1 b", "t cmd u1 b",
-                                      "exit loop", 'hbs ""', "refs 1 0", "slots 1"],
+                                      "exit loop", 'hbs ""', "refs 1 0", "slots 1", "slotidx 1"],
             "sanitizer-line": pre + ["sanitizer ERROR: AddressSanitizer: heap-use-after-free"] + tail,
         }
         good = pre + ["t input u1 a", "t cmd u1 a", "cycle 3", "t input u1 b", "t cmd u1 b"] + tail
